@@ -72,6 +72,35 @@ def start_cases(tier):
         yield start(n=1, release=2, length=BIG, reads=100)
 
 
+def live(flavour, when, code, k, n, own=0):
+    """mode 6: the real runTestCasesForServer over a REAL server process that gives up by itself:
+    (flavour when code k n own); flavour 0 an OS child of runCommand (the real cmdProcess.whenDone), 1 a server function
+    under runInProcess (reference server: its stderr is parsed); when 0 at once, 1 after reading the request, 2 after the
+    handshake when k sendRequest calls have returned; code 0 = exit status 0 / nil error"""
+    return ["c11.proc", 6, 1, [flavour, when, code, k, n, own]]
+
+
+def live_cases(rng, tier):
+    # a server under test that answers the handshake and EXITS, with status 0 or not, after k of n requests
+    for n, k in ((3, 1), (4, 2), (2, 2), (3, 4)):
+        for code in (0, 3):
+            yield live(0, 2, code, k, n)
+    yield live(0, 2, 0, rng.randrange(1, 4), 5)
+    # an in-process reference server that returns - nil or an error - at once / after the request / after k requests
+    for code in (1, 0):
+        yield live(1, 0, code, 0, 2, own=code)
+        yield live(1, 1, code, 0, 3, own=1)
+        yield live(1, 2, code, 1, 3, own=2 - code)
+        yield live(1, 2, code, 2, 2, own=0)
+    yield live(1, 2, 1, rng.randrange(1, 4), 4, own=rng.randrange(0, 3))
+    yield live(1, 2, 1, 5, 3, own=1)           # it stays to the end: stopped by the runner, the error is still passed on
+    if tier != "quick":
+        for n in range(1, 6):
+            for k in range(1, n + 2):
+                yield live(0, 2, 0, k, n)
+                yield live(1, 2, 1, k, n, own=k % 3)
+
+
 def proc_cases(rng):
     """every child behaviour x every way of stopping it; every scripted delay is >= 1 s away from every other
     event of the same script (5000 forced close, 10000 giving up, WaitDelay), so only the ORDER is observed"""
@@ -191,8 +220,8 @@ LINE_SHAPES = [b"S/a: m1", b"S/b: m2", b"S/a: again", b"Q/zz: not in the batch",
 class C11(Prop):
     id = "C11"
     props = "C11_Props"
-    coq_files = ("Base", "C11_Consts", "C11_Proc", "C11_Start", "C11_Printer", "C11_Model", "C11_Spec", "C11_Proofs",
-                 "C11_ProcProofs", "C11_StartProofs", "C11_PrinterProofs", "C11_Props")
+    coq_files = ("Base", "C11_Consts", "C11_Proc", "C11_Start", "C11_Printer", "C11_InProc", "C11_Model", "C11_Spec",
+                 "C11_Proofs", "C11_ProcProofs", "C11_StartProofs", "C11_PrinterProofs", "C11_InProcProofs", "C11_Props")
     models = ("C11_Model",)
     packages = {"cc": "internal/app/connectconformance"}
     kinds = {"c11.batch": "cc", "c11.proc": "cc", "c11.limit": "cc", "c11.printer": "cc"}
@@ -225,6 +254,13 @@ class C11(Prop):
             "says nothing; reads all and answers (control: all pass) - with a request of a few bytes and of 256 KiB (server "
             "credentials; far beyond the 64 KiB an OS pipe takes unread, so the write really blocks): returned within the "
             "patience, child gone (kill(pid,0)), passes, setup errors with exactly one outcome. "
+            "mode 6 (20 cases): the real runTestCasesForServer over a REAL server process that gives up by itself - the real "
+            "runCommand (cmdProcess.whenDone) around a child that answers the handshake and exits with status 0 / 3 after k of n "
+            "requests (told so by SIGUSR1 inside the k-th sendRequest; the harness then waits for the context handed to the "
+            "starter to be cancelled, at most 5 s), and the real runInProcess around a reference-server function that writes "
+            "0..2 lines to its stderr and returns nil / an error at once, after reading the request, or after the handshake and k "
+            "requests: returned, passes, setup errors, and the lines handed to the error printer once the stderr reader has "
+            "seen the end of the stream. "
             "Compared: returned within 3 x (both waits) [a correct implementation needs <= 1/3 of that], class of the error "
             "(nil, exit status, signal, context.Canceled, gave up, deadline, own error), child gone at return (kill(pid,0)), "
             "forced closes, passes recorded. The three durations are regenerated from the compiled code into C11_Consts.v "
@@ -254,7 +290,9 @@ class C11(Prop):
                    "returned an error (C10); a callback not fired during the send loop fires while the function waits",
                    "stderr of the reference server is ASCII (strings.TrimSpace's Unicode classes are not modelled)",
                    "server death is noticed at the next loop iteration (true for fakeProcess; with real processes whenDone runs "
-                   "on a goroutine, so notice may lag: the cases sent meanwhile are then answered by the client, not marked)",
+                   "on a goroutine, so notice may lag: the cases sent meanwhile are then answered by the client, not marked; "
+                   "mode 6 of c11.proc waits inside sendRequest until the batch context is cancelled, 5 s at most, so the real "
+                   "whenDone of cmdProcess / localProcess decides the observable)",
                    "when a reference client's feedback and a reference server's stderr line name the same case the map keeps "
                    "whichever recordSideband ran last (a race in the code); the generator never produces both for one name",
                    "on the early-return paths (write/read/certificate failure) the stderr reader is not awaited by the code; "
@@ -282,7 +320,12 @@ class C11(Prop):
                   "verbatim (printer_lines_atomic), so the stderr parser attributes every feedback line to the case it was "
                   "printed for and passes the others through whole (printer_feedback_attributed); the server's response is "
                   "read with the server's size limit, which is the smaller of the two regenerated limits: above it the start "
-                  "fails at the prefix with a setup error for every case (limits_wired). Model tied to "
+                  "fails at the prefix with a setup error for every case (limits_wired). The goroutine of runInProcess as a list of "
+                  "actions: the line with the error an in-process server returned reaches the stderr reader iff it is printed "
+                  "after the function returned and before the pipes are closed (inprocess_print_order); in process.go's order "
+                  "the stream is the server's own output, then that line, then its end (inprocess_stream), and for EVERY batch "
+                  "and fault script the line is handed to the error printer (inprocess_error_is_printed); whenDone calls its "
+                  "action whatever the result, so a clean exit is noticed like any other (clean_exit_is_noticed). Model tied to "
                   "server_runner.go / process.go by an exhaustive fault-point differential run and real child processes.")
     level_note = ("Trusted: Coq kernel, extraction, OCaml driver, harness. Model-code correspondence is sampled (every fault "
                   "point and every callback timing vector for batches <= 5; ~130 process scripts), not proved. results.go, "
@@ -298,7 +341,11 @@ class C11(Prop):
                   "start_fault_bounded's hypothesis (lets_go); neither is generated beyond the two known-finding cases. "
                   "c11.printer observes records and passed-through lines only under the precondition that makes them "
                   "schedule-independent (clean calls, one line per case); detection of a non-atomic printer relies on the "
-                  "Go mutex's hand-off mode (26 of 26 sleeping-writer cases under seed C11-18), not on a forced schedule.")
+                  "Go mutex's hand-off mode (26 of 26 sleeping-writer cases under seed C11-18), not on a forced schedule. "
+                  "runInProcess's goroutine and whenDone are modelled as an action list / a one-line function whose correspondence "
+                  "to process.go is the 20 mode-6 cases per run (real OS child, real in-process function), not a proof; a server "
+                  "that ends right after the handshake (k = 0) is not generated with real processes (the notice races the first "
+                  "loop iteration).")
     technique = ("Coq proofs by induction over arbitrary fault scripts (permutation invariant of the outcome log), timed "
                  "state machine for process.go with constants regenerated from the code; differential model-vs-Go on scripted "
                  "fakes at every fault point and on real re-executed child processes run concurrently")
@@ -316,6 +363,8 @@ class C11(Prop):
                 any(sb for sb in r[0][0]) and len(r[0][1]) >= 1
         if case[0] == "c11.proc" and case[1] == 5:
             return isinstance(r, list) and len(r) == 6 and r[0] == 1 and (r[4] + r[5] > 0 or case[3][9] == 0)
+        if case[0] == "c11.proc" and case[1] == 6:
+            return isinstance(r, list) and len(r) == 4 and r[0] == 1 and (r[2] > 0 or len(r[3]) > 0 or case[3][3] > case[3][4])
         if case[0] == "c11.proc":
             return isinstance(r, list) and len(r) == 5 and r[0] == 1 and (r[1] != 0 or r[3] != 0 or r[4] != 0 or r[2] == 0)
         if not isinstance(r, list) or len(r) < 8:
@@ -347,6 +396,17 @@ class C11(Prop):
                     "are not those of the submitted 'test name: message' lines (proved for every schedule of an atomic "
                     "printer: printer_lines_atomic, printer_feedback_attributed) - a line was split, merged, or its "
                     "test name was not copied verbatim")
+        if case[0] == "c11.proc" and case[1] == 6:
+            fl, when, code, k, n, own = case[3]
+            who = ("a real server command (runCommand, cmdProcess.whenDone) that answers the handshake and exits with status %d "
+                   "after %d of %d requests" % (code, k, n)) if fl == 0 else \
+                  ("an in-process reference server (runInProcess) that writes %d lines to its stderr and returns %s %s"
+                   % (own, "nil" if code == 0 else "an error",
+                      ("at once", "after reading the request", "after the handshake and %d of %d requests" % (k, n))[when]))
+            return ("runTestCasesForServer over %s: (in-time, passes, setup errors, lines handed to the error printer) differ "
+                    "from the model: the cases after the server's end are setup errors whichever way it ended "
+                    "(dead_server_either_flavour), and the error runInProcess prints for the server is written BEFORE the "
+                    "pipes are closed, so it is passed through (inprocess_error_is_printed)" % who)
         if case[0] == "c11.proc" and case[1] == 5:
             try:
                 r = core.parse_sx("(" + g + ")")[0]
@@ -515,6 +575,8 @@ class C11(Prop):
         yield from proc_cases(rng)
         # (g) the start phase over real children that exit / close their stdin before, while or after the request is written
         yield from start_cases(tier)
+        # (g') a real server process that gives up by itself mid-batch: OS child (status 0 / non-zero), in-process (nil / error)
+        yield from live_cases(rng, tier)
         # (h) glue: which size limit the response read gets; the real printer in front of the real stderr parser
         yield from limit_cases(rng, tier)
         yield from printer_cases(rng, tier)
